@@ -199,6 +199,10 @@ func (d *intDecoder) DecodeStream(s *Stream, depth int64, p unsafe.Pointer) erro
 	if bytes == nil {
 		return nil
 	}
+	if numberContinues(s) {
+		// a fraction or an exponent follows: the number is not an integer literal
+		return d.typeError(bytes, s.totalOffset())
+	}
 	i64, err := d.parseInt(bytes)
 	if err != nil {
 		return d.typeError(bytes, s.totalOffset())
@@ -256,4 +260,17 @@ func (d *intDecoder) Decode(ctx *RuntimeContext, cursor, depth int64, p unsafe.P
 
 func (d *intDecoder) DecodePath(ctx *RuntimeContext, cursor, depth int64) ([][]byte, int64, error) {
 	return nil, 0, fmt.Errorf("json: int decoder does not support decode path")
+}
+
+// numberContinues reports whether the digits just read are followed by a
+// fraction or an exponent ( the byte may be in the next chunk ).
+func numberContinues(s *Stream) bool {
+	if s.char() == nul {
+		s.read()
+	}
+	switch s.char() {
+	case '.', 'e', 'E':
+		return true
+	}
+	return false
 }
